@@ -183,3 +183,63 @@ func zzSplit(k int) int {
 	}
 	return k
 }
+
+// ZZ_C16_JSON: the JSON codec's wiring under the encoding/json contract stub: the decoder is given exactly the
+// frame's bytes with exactly the configured flags; a decode error becomes an exception and nothing is delivered;
+// the decoded object itself is delivered; on write the marshalled bytes are forwarded unchanged or the marshal
+// error is raised.
+func ZZ_C16_JSON(useNumber, disallow int) {
+	if !vrt.Symbolic() {
+		return // the library itself runs natively; this harness decides the wiring only
+	}
+	cdc := JSONCodec(useNumber != 0, disallow != 0)
+	n := vrt.Choose(4)
+	frame := vrt.Bytes(n)
+	var inbound netty.Message
+	switch vrt.Choose(3) {
+	case 0:
+		inbound = frame
+	case 1:
+		inbound = bytes.NewReader(frame)
+	default:
+		inbound = &zzFrag{data: frame, splits: 1, eofWD: vrt.Choose(2) == 1}
+	}
+	r := &zzCtx{}
+	pv := vrt.Panics(func() { cdc.HandleRead(r, inbound) })
+	if pv != nil {
+		vrt.Assert(!vrt.IsRuntimeError(pv), "c16-json-exception-is-not-a-runtime-fault")
+		vrt.Assert(len(r.in) == 0, "c16-json-error-delivers-nothing")
+		vrt.Reach("c16-json-rejected")
+	} else {
+		vrt.Assert(len(r.in) == 1, "c16-json-delivers-one-object")
+		obj, ok := r.in[0].(map[string]interface{})
+		vrt.Assert(ok, "c16-json-delivers-a-map")
+		got, _ := obj["__frame__"].(string)
+		vrt.Assert(len(got) == n, "c16-json-decoder-sees-the-whole-frame")
+		if n > 0 {
+			i := vrt.IntIn(0, n-1)
+			vrt.Assert(got[i] == frame[i], "c16-json-decoder-sees-exactly-the-frame-bytes")
+		}
+		vrt.Assert(obj["__useNumber__"] == (useNumber != 0), "c16-json-usenumber-applied-iff-configured")
+		vrt.Assert(obj["__disallow__"] == (disallow != 0), "c16-json-disallow-applied-iff-configured")
+		vrt.Reach("c16-json-decoded")
+	}
+	// outbound
+	w := &zzCtx{}
+	msg := map[string]interface{}{"k": 1}
+	wv := vrt.Panics(func() { cdc.HandleWrite(w, msg) })
+	arg, _ := vrt.JSONLastArg().(map[string]interface{})
+	vrt.Assert(arg != nil && len(arg) == 1, "c16-json-marshals-the-message-itself")
+	if wv != nil {
+		vrt.Assert(len(w.out) == 0, "c16-json-marshal-error-forwards-nothing")
+		vrt.Assert(len(vrt.JSONLastMarshal()) == 0, "c16-json-exception-only-on-marshal-error")
+	} else {
+		vrt.Assert(len(w.out) == 1, "c16-json-forwards-one-message")
+		out, ok := w.out[0].([]byte)
+		want := vrt.JSONLastMarshal()
+		vrt.Assert(ok && len(out) == len(want) && len(want) >= 2, "c16-json-forwards-marshalled-bytes")
+		i := vrt.IntIn(0, len(want)-1)
+		vrt.Assert(out[i] == want[i], "c16-json-forwards-marshalled-bytes-unchanged")
+		vrt.Reach("c16-json-encoded")
+	}
+}
